@@ -13,7 +13,10 @@ import (
 	"io"
 	"net"
 	"net/http"
+	"os"
+	"os/signal"
 	"strings"
+	"syscall"
 	"sync"
 	"sync/atomic"
 	"testing"
@@ -68,7 +71,7 @@ func genC11(t *rapid.T) C11Case {
 	}
 	m := rapid.IntRange(0, 2*n+2).Draw(t, "nacts")
 	for i := 0; i < m; i++ {
-		c.Acts = append(c.Acts, C11Act{Op: rapid.SampledFrom([]string{"release", "release", "send", "send-connect", "disconnect", "newconn", "tunnel-echo", "sleep", "long-sleep"}).Draw(t, "op"), I: rapid.IntRange(0, n-1).Draw(t, "i")})
+		c.Acts = append(c.Acts, C11Act{Op: rapid.SampledFrom([]string{"release", "release", "send", "send-connect", "disconnect", "newconn", "tunnel-echo", "sleep", "long-sleep", "second-signal"}).Draw(t, "op"), I: rapid.IntRange(0, n-1).Draw(t, "i")})
 	}
 	return c
 }
@@ -103,6 +106,17 @@ type c11Resp struct {
 }
 
 const c11PPTimeout = 700 * time.Millisecond
+
+// SIGUSR1 is the "second shutdown signal" of the forwarder-mode instances; it must never end the test process
+var c11Signals = func() chan os.Signal {
+	ch := make(chan os.Signal, 64)
+	signal.Notify(ch, syscall.SIGUSR1)
+	go func() {
+		for range ch {
+		}
+	}()
+	return ch
+}()
 
 func c11Origin() (*Peer, error) {
 	e, err := getFlt() // reuse the fault laboratory's scripted plain origin and its name mapping
@@ -157,7 +171,7 @@ func runC11once(c C11Case) (fails []vstat.Failure) {
 		go func() { serveDone <- bare.Serve(bareLn) }()
 		addr = ln.Addr().String()
 	} else {
-		o := ProxyOpts{ShutdownTimeout: deadline}
+		o := ProxyOpts{ShutdownTimeout: deadline, ShutdownSignals: []os.Signal{syscall.SIGUSR1}}
 		if c.Stack == "pp" {
 			o.ProxyProtocol = &forwarder.ProxyProtocolConfig{ReadHeaderTimeout: c11PPTimeout}
 		}
@@ -323,6 +337,11 @@ func runC11once(c C11Case) (fails []vstat.Failure) {
 		time.Sleep(50 * time.Millisecond)
 	}
 
+	// the drain ends at its deadline - or earlier, when a second shutdown signal arrives (forwarder mode): from then on
+	// everything is closed by force, as after the deadline
+	cutAt := tShutdown.Add(deadline)
+	signalled := false
+
 	// ---- actions after closing is proven
 	for _, a := range c.Acts {
 		cl := clients[a.I]
@@ -369,7 +388,7 @@ func runC11once(c C11Case) (fails []vstat.Failure) {
 				cl.conn.SetReadDeadline(time.Now().Add(3 * time.Second))
 				m, err := ReadResponse(cl.br, "GET")
 				ok := err == nil && m.Status == 200
-				if !ok && fw != nil && time.Now().After(tShutdown.Add(deadline-60*time.Millisecond)) {
+				if !ok && fw != nil && time.Now().After(cutAt.Add(-60*time.Millisecond)) {
 					// forwarder drains only for ShutdownTimeout and then closes everything, tunnels included: an
 					// exchange that was still under way at that moment is not judged
 					st.Class("tunnel-echo-across-the-drain-deadline")
@@ -377,6 +396,13 @@ func runC11once(c C11Case) (fails []vstat.Failure) {
 				}
 				cl.echoOK = &ok
 				cl.conn.SetReadDeadline(time.Time{})
+			}
+		case "second-signal":
+			if fw != nil && !signalled && time.Now().Before(cutAt) {
+				signalled = true
+				cutAt = time.Now()
+				syscall.Kill(os.Getpid(), syscall.SIGUSR1)
+				time.Sleep(20 * time.Millisecond)
 			}
 		case "sleep":
 			time.Sleep(time.Duration(10+a.I*20) * time.Millisecond)
@@ -402,7 +428,7 @@ func runC11once(c C11Case) (fails []vstat.Failure) {
 			<-cl.respDone
 			continue
 		}
-		if fw != nil && cl.releasedAt.After(tShutdown.Add(deadline-60*time.Millisecond)) {
+		if fw != nil && cl.releasedAt.After(cutAt.Add(-60*time.Millisecond)) {
 			// forwarder drains only for ShutdownTimeout and then closes everything: an origin that
 			// answers at or after that deadline cannot be waited for. Not judged.
 			st.Class("inflight-released-after-drain-deadline")
